@@ -1,6 +1,7 @@
 package main
 
 import (
+	"fmt"
 	"strings"
 
 	"github.com/github/go-spdx/v2/spdxexp/spdxlicenses"
@@ -356,7 +357,9 @@ func confusableTrees() []*Tree {
 		x, y := leaf("Zlib"), leaf("0BSD")
 		out = append(out, and(a, b), or(a, b), and(b, a), or(b, a),
 			or(and(a, x), and(b, y)), or(and(b, x), and(a, y)), and(or(a, x), or(b, y)), and(or(b, x), or(a, y)),
-			or(a, and(b, x)), and(a, or(b, x)), or(and(x, a), b), and(or(x, b), a))
+			or(a, and(b, x)), and(a, or(b, x)), or(and(x, a), b), and(or(x, b), a),
+			// one of them repeated with the other in between
+			and(a, and(b, a)), and(b, and(a, b)), or(a, or(b, a)), or(and(a, b), a), and(or(b, a), b), and(and(a, x), and(b, a)), or(or(b, x), or(a, or(y, b))))
 	}
 	return out
 }
@@ -409,4 +412,70 @@ func scaleTrees(r *SM64, thorough bool) []*Tree {
 		out = append(out, label(randTree(r, n), pool, new(int)))
 	}
 	return out
+}
+
+// distinctChains: chains whose i-th operand is its own term, so that an assignment can single out one position
+// (first, middle, last) - depth limits and fixed-size buffers answer wrongly only for the deep positions
+func distinctChains(sizes []int) []*Tree {
+	var out []*Tree
+	for _, n := range sizes {
+		for _, op := range []byte{'A', 'O'} {
+			for _, right := range []bool{true, false} {
+				t := leaf("LicenseRef-s0")
+				for i := 1; i < n; i++ {
+					l := leaf(fmt.Sprintf("LicenseRef-s%d", i))
+					if right {
+						t = &Tree{Op: op, L: l, R: t}
+					} else {
+						t = &Tree{Op: op, L: t, R: l}
+					}
+				}
+				out = append(out, t)
+			}
+		}
+	}
+	return out
+}
+
+// scaleAssignments: all terms; only / all but the first, middle, last and two seeded terms
+func scaleAssignments(t *Tree, r *SM64) [][]string {
+	ls := uniq(t.leaves())
+	out := [][]string{ls}
+	pick := []int{0, len(ls) / 2, len(ls) - 1, r.Intn(len(ls)), r.Intn(len(ls))}
+	for _, k := range pick {
+		out = append(out, []string{ls[k]})
+		if len(ls) > 1 {
+			var rest []string
+			rest = append(rest, ls[:k]...)
+			rest = append(rest, ls[k+1:]...)
+			out = append(out, rest)
+		}
+	}
+	return out
+}
+
+// deepTrees: seeded trees of 6..12 leaves over a small pool of plain terms (nesting depth 3 and more, repeated
+// terms, several OR groups under one AND): beyond the sizes that are enumerated exhaustively
+func deepTrees(r *SM64, n int) []*Tree {
+	pool := []string{"MIT", "ISC", "Zlib", "0BSD", "Apache-2.0", "BSD-3-Clause", "MPL-2.0", "GPL-2.0-only", "LicenseRef-x", "Unlicense"}
+	var out []*Tree
+	for i := 0; i < n; i++ {
+		k := 6 + r.Intn(7)
+		sh := randTree(r, k)
+		var lab []string
+		for j := 0; j < k; j++ {
+			lab = append(lab, pool[r.Intn(len(pool))])
+		}
+		out = append(out, label(sh, lab, new(int)))
+	}
+	return out
+}
+
+// byteSweep: every byte value inside / next to an identifier.  refOnly: the templates whose validity is known
+// without a tokeniser (a reference name is valid iff every byte of it is an id character)
+var sweepRefTemplates = []string{"LicenseRef-a%sc", "DocumentRef-a%sc:LicenseRef-x", "DocumentRef-d:LicenseRef-a%sc", "MIT AND LicenseRef-q%sz OR ISC"}
+var sweepOtherTemplates = []string{"LicenseRef-%s", "MIT AND LicenseRef-q%s", "DocumentRef-%s:LicenseRef-x", "MIT%s", "%sMIT", "MIT%sISC", "MIT %s ISC", "MIT WITH Bison-exception-2.2%s", "GPL-2.0%sonly", "(MIT%s)"}
+
+func isIDByte(b byte) bool {
+	return b >= 'a' && b <= 'z' || b >= 'A' && b <= 'Z' || b >= '0' && b <= '9' || b == '-' || b == '.'
 }
